@@ -1,6 +1,6 @@
 (* C10 -- What the driver resolves is exactly what the build steps see. *)
 From Coq Require Import List NArith Bool.
-From Verif Require Import Model.Csv Proofs.Csv_facts.
+From Verif Require Import Model.Csv Proofs.Csv_facts Model.GlyphName Proofs.GlyphName_facts.
 Import ListNotations.
 Local Open Scope N_scope.
 
@@ -31,3 +31,22 @@ Print Assumptions C10_hex04_roundtrip.
 Theorem C10_glyphmap_row_roundtrip : forall g, gmap_ok g -> parse_row (csv_row g) = Some g.
 Proof. exact glyphmap_row_roundtrip. Qed.
 Print Assumptions C10_glyphmap_row_roundtrip.
+
+(* T4: glyph names.  For sequences over code points above U+0020 (none of U+000A..U+000F, whose
+   hexadecimal spelling is a single letter) two different sequences with un-hashed names get
+   different names -- except that a name which needed the "g_" prefix is also the name of the
+   sequence that spells it with the letter g (known finding F3, witnessed below) *)
+Theorem C10_glyph_name_injective :
+  forall (a b : list N) (na : text),
+    Forall unambiguous a -> Forall unambiguous b -> a <> [] -> b <> [] ->
+    glyph_name a = Some na -> glyph_name b = Some na ->
+    a = b \/ g_spelled a b \/ g_spelled b a.
+Proof. exact glyph_name_injective. Qed.
+Print Assumptions C10_glyph_name_injective.
+Theorem C10_raw_name_injective :
+  forall a b : list N, Forall unambiguous a -> Forall unambiguous b -> raw_name a = raw_name b -> a = b.
+Proof. exact raw_name_injective. Qed.
+Print Assumptions C10_raw_name_injective.
+Theorem C10_g_prefix_collision : glyph_name [103; 128512] = glyph_name [128512].
+Proof. exact g_prefix_collision. Qed.
+Print Assumptions C10_g_prefix_collision.
